@@ -379,6 +379,14 @@ def obligations(tier):
                           bounds='methotrexate + lining residues + chloride (cut from 4DFR) under a symbolic grid translation t in [0, 2.509] along x',
                           claim_doc='protein sites as O4; the ligand\'s ionizable groups and the ion are recognised, each with the model pKa / charge configured for its type',
                           max_paths=5000, wall_s=170, split_input=('shift_thousandths', 8)))
+    # a synthetic methyl phosphate beside the tri-peptide: the three terminal phosphate oxygens are ionizable ligand groups (type OP)
+    MPO = [('MPO  O1 A', 'OP'), ('MPO  O2 A', 'OP'), ('MPO  O3 A', 'OP')]
+    for ax in ((0,) if tier == 'quick' else (0, 1, 2)):
+        obs.append(Obligation('O4-pipeline-sites[complex_MPO,%s]' % 'xyz'[ax], mk_pipeline_sites('complex_MPO', ax, MPO, ('MPO',)),
+                              code=['propka/run.py:single (whole pipeline)', G + 'is_ligand_group_by_groups', G + 'Group.setup', 'propka/ligand.py:assign_sybyl_type'],
+                              bounds='tri_ASP plus a methyl phosphate ligand (synthetic, ideal geometry) under a symbolic grid translation t in [0, 2.509] along %s' % 'xyz'[ax],
+                              claim_doc='protein sites as O4; the three terminal phosphate oxygens are recognised as OP groups with the configured model pKa and charge',
+                              max_paths=5000, wall_s=170))
     for name, ax in ([('pair_CYS_CYS_bridge', 1), ('pair_GLU_ARG_TYR', 2)] if tier == 'quick' else [('pair_CYS_CYS_bridge', 1), ('pair_GLU_ARG_TYR', 2), ('pep8', 0), ('cterm_PHE', 1), ('pair_CYS_CYS_bridge_along_x', 2)]):
         obs.append(Obligation('O4-pipeline-sites[%s,%s,every residue listed with -i]' % (name, 'xyz'[ax]), mk_pipeline_sites(name, ax, list_all=True),
                               code=['propka/run.py:single (whole pipeline)', 'propka/conformation_container.py:ConformationContainer.init_group', G + 'Group.use_in_calculations', 'propka/output.py:get_summary_section'],
